@@ -559,7 +559,8 @@ func (e *Extractor) handleCrossProductOverflow(s *Seq) *Seq {
 	e.markAllInexact(s)
 	s.Dedup()
 
-	// If still over MaxLiterals after dedup, truncate the list
+	// If still over MaxLiterals after dedup, truncate the list: the dropped
+	// literals are unrepresented, so the set no longer covers every match.
 	if s.Len() > e.config.MaxLiterals {
 		s.literals = s.literals[:e.config.MaxLiterals]
 		s.partialCoverage = true
@@ -604,7 +605,8 @@ func (e *Extractor) extractSuffixes(re *syntax.Regexp, depth int) *Seq {
 		bytes := runeSliceToBytes(re.Rune)
 		complete := true
 		if len(bytes) > e.config.MaxLiteralLen {
-			// For suffix, take the LAST MaxLiteralLen bytes
+			// For suffix, take the LAST MaxLiteralLen bytes: a suffix only,
+			// no longer the whole match
 			bytes = bytes[len(bytes)-e.config.MaxLiteralLen:]
 			complete = false
 		}
@@ -705,8 +707,10 @@ func (e *Extractor) extractSuffixes(re *syntax.Regexp, depth int) *Seq {
 			}
 			for i := 0; i < seq.Len(); i++ {
 				allLits = append(allLits, seq.Get(i))
-				if len(allLits) >= e.config.MaxLiterals {
-					return NewSeq(allLits...)
+				if len(allLits) > e.config.MaxLiterals {
+					// More alternatives than can be represented: returning the
+					// first ones would drop branches, so report "no information"
+					return NewSeq()
 				}
 			}
 		}
@@ -805,8 +809,10 @@ func (e *Extractor) extractInner(re *syntax.Regexp, depth int) *Seq {
 			}
 			for i := 0; i < seq.Len(); i++ {
 				allLits = append(allLits, seq.Get(i))
-				if len(allLits) >= e.config.MaxLiterals {
-					return NewSeq(allLits...)
+				if len(allLits) > e.config.MaxLiterals {
+					// More alternatives than can be represented: returning the
+					// first ones would drop branches, so report "no information"
+					return NewSeq()
 				}
 			}
 		}
@@ -1010,9 +1016,9 @@ func (e *Extractor) expandCharClass(re *syntax.Regexp) *Seq {
 			}
 			lits = append(lits, NewLiteral(bytes, true))
 
-			// Respect MaxLiterals limit
-			if len(lits) >= e.config.MaxLiterals {
-				return NewSeq(lits...)
+			// More members than MaxLiterals: a cut list would drop some
+			if len(lits) > e.config.MaxLiterals {
+				return NewSeq()
 			}
 		}
 	}
